@@ -538,4 +538,172 @@ theorem U_tag_Y (cfg : Cfg) (hS : Y_startLex_tag cfg) (hA : Y_auxPend_tag cfg) (
       intro hact
       exact hE hg hk (by rw [hc.disp]; exact hact)
 
+/-! ## the other operations for `InvY` -/
+
+theorem U_nonTag_Y (cfg : Cfg) (inp : Bytes) (lx : NonTagLexeme) (d : Disp (FullStH cfg)) (hI : InvY cfg d)
+    (hv : NTLexValid inp lx) (hw : d.rcs ≤ lx.raw.start) : UPostY cfg (Disp.handleNonTag (fullCtlH cfg) inp lx d) := by
+  obtain ⟨hX, hE⟩ := hI
+  have hsg : SameG d (Disp.handleNonTag (fullCtlH cfg) inp lx d).1 := handleNonTag_sameG (c := fullCtl cfg) d lx
+  have hh := Hom.hom_handleNonTag (hintCtl_hom (fullCtl cfg)) inp lx d
+  have hpost := handleNonTag_I cfg (EqT d.ctl.1.1) (fun s tok b hs hk => eqT_other cfg d.ctl.1.1 (invX_fault hX) s tok b hs hk)
+    (Hom.mapD Prod.fst d) (EqT.refl _) inp lx
+  rw [← hh] at hpost
+  have hu : UPost cfg (Disp.handleNonTag (fullCtlH cfg) inp lx d) := by
+    cases hb : (d.gotFlagsFromHint || d.pendingAux) with
+    | true => exact U_postHint_nonTag cfg inp lx d hX hb hv hw
+    | false =>
+      obtain ⟨a, b, c⟩ := invX_idle_of hX hb
+      exact U_idle_nonTag cfg d a b c inp lx
+  refine ⟨fun a ha => ⟨hu.1 a ha, ?_⟩, hu.2⟩
+  have he : EqT d.ctl.1.1 (Disp.handleNonTag (fullCtlH cfg) inp lx d).1.ctl.1.1 := hpost.1 a ha
+  obtain ⟨s1, s2, s3, s4⟩ := hsg
+  intro hg hk hact
+  rw [s3]
+  exact hE (by rw [← s2]; exact hg) (by rw [← s4]; exact hk) (by rw [← he.disp]; exact hact)
+
+theorem startTagHint_ghost {γ : Type} (c : Controller γ) (n : LocalName) (ns : Model.Ns) (d : Disp (γ × Option Bool)) :
+    (Disp.startTagHint (hintCtl c) n ns d).1.ctl.2 = some true := by
+  unfold Disp.startTagHint
+  have h3 : ((hintCtl c).startTag d.ctl n ns).1.2 = some true := rfl
+  generalize (hintCtl c).startTag d.ctl n ns = r at h3
+  dsimp only
+  split <;> exact h3
+
+theorem U_startHint_Y (cfg : Cfg) (d : Disp (FullStH cfg)) (hp : d.pendingAux = false) (hg : d.gotFlagsFromHint = false)
+    (hJ : J2 cfg d.ctl.1.1) (n : LocalName) (ns : Model.Ns) : UPostY cfg (Disp.startTagHint (fullCtlH cfg) n ns d) := by
+  have hu := U_idle_startHint cfg d hp hg hJ n ns
+  exact ⟨fun a ha => ⟨hu.1 a ha, endOK_of_ghost (startTagHint_ghost (fullCtl cfg) n ns d)⟩, hu.2⟩
+
+theorem endTagHint_endOK (cfg : Cfg) (d : Disp (FullStH cfg)) (n : LocalName) (a : Directive)
+    (ha : (Disp.endTagHint (fullCtlH cfg) n d).2 = .ok a) : EndOK (Disp.endTagHint (fullCtlH cfg) n d).1 := by
+  unfold Disp.endTagHint at ha ⊢
+  cases hfl : (d.flushPendingText (fullCtlH cfg)).2 with
+  | error e => rw [DRes.bind_err _ _ e hfl] at ha; cases ha
+  | ok u =>
+    rw [DRes.bind_ok _ _ u hfl]
+    generalize (d.flushPendingText (fullCtlH cfg)).1 = d1
+    have h2 : ((fullCtlH cfg).endTag d1.ctl n).2 = (endTag d1.ctl.1.1 n).2 := rfl
+    have h1 : ((fullCtlH cfg).endTag d1.ctl n).1.1.1 = (endTag d1.ctl.1.1 n).1 := rfl
+    generalize (fullCtlH cfg).endTag d1.ctl n = r at h1 h2
+    dsimp only
+    unfold Disp.applyHintFlags
+    dsimp only
+    intro _ _ hact
+    have hact' : r.1.1.1.disp.endTag.hasActive = true := hact
+    have hr2 : r.2.nextEndTag = true := by rw [h2, endTag_flag_active, ← h1]; exact hact'
+    show (if Disp.shouldStopRemoving (fullCtlH cfg) { d1 with ctl := r.1 } = true then
+        ({ r.2 with nextEndTag := true } : Model.Flags) else r.2).nextEndTag = true
+    split
+    · rfl
+    · exact hr2
+
+theorem U_endHint_Y (cfg : Cfg) (d : Disp (FullStH cfg)) (hp : d.pendingAux = false) (hg : d.gotFlagsFromHint = false)
+    (hJ : J2 cfg d.ctl.1.1) (n : LocalName) : UPostY cfg (Disp.endTagHint (fullCtlH cfg) n d) := by
+  have hu := U_idle_endHint cfg d hp hg hJ n
+  exact ⟨fun a ha => ⟨hu.1 a ha, endTagHint_endOK cfg d n a ha⟩, hu.2⟩
+
+/-! ## assembly -/
+
+/-- **Full_scan_opsX_of.** The operation-level statement with all four operations guarded, for the inductive invariant
+`InvY`, from the two remaining (operation, protocol state) pairs (`handle_tag`, `startLex`) and (`handle_tag`, `auxPend`). -/
+theorem Full_scan_opsX_of (hS : ∀ cfg, Y_startLex_tag cfg) (hA : ∀ cfg, Y_auxPend_tag cfg) :
+    Full_scan_opsX_statement InvY := by
+  intro cfg
+  refine ⟨fun enc => ⟨.idle rfl rfl (J2_init cfg), endOK_of_gf rfl⟩, ?_⟩
+  have hsim := fullCtlH_sim cfg
+  have hcl := cleanCtlH_clean cfg
+  refine { ops := fun inp => ?_, bail := ?_, flush := ?_, handleEnd := ?_, initial := fun _ => rfl, np := fun e h => NP.np h }
+  · constructor
+    · rintro lx d _ ⟨rfl, hI⟩
+      simp only [guardHints, guardS]
+      cases hK : (withArgs argSite (andGuard kindGuard wmGuard)).tag inp lx d with
+      | some e => exact Or.inl ⟨⟨rfl, hI⟩, rfl⟩
+      | none =>
+        simp only [withArgs, andGuard] at hK
+        have hv : TagArgsOK inp lx := by
+          cases ha : (argGuard argSite).tag inp lx with
+          | some e => rw [ha] at hK; cases hK
+          | none => exact argGuard_tag_none ha
+        have ha : (argGuard argSite).tag inp lx = none := by
+          cases ha : (argGuard argSite).tag inp lx with
+          | some e => rw [ha] at hK; cases hK
+          | none => rfl
+        rw [ha] at hK
+        dsimp only at hK
+        have hkind : (kindGuard (γ := FullSt cfg)).tag inp lx d = none := by
+          cases hk : (kindGuard (γ := FullSt cfg)).tag inp lx d with
+          | some e => rw [hk] at hK; cases hK
+          | none => rfl
+        rw [hkind] at hK
+        dsimp only at hK
+        have hw : d.rcs ≤ lx.raw.start := by
+          simp only [wmGuard] at hK
+          split at hK
+          · assumption
+          · cases hK
+        refine rel_of_unaryY (Chunk.R.handleTag_step hsim inp lx d (invX_DO hI.1))
+          (U_tag_Y cfg (hS cfg) (hA cfg) inp lx d hI hv hkind) (fun e he ho => ?_)
+        exact own_not_U2 ho ((handleTag_post hcl lx d hw hv.1.1.1 hv.1.1.2).2 e he) (handleTag_not hcl lx d hv.1.1 hv.1.2 e he)
+    · rintro lx d _ ⟨rfl, hI⟩
+      simp only [guardHints, guardS]
+      cases hK : (withArgs argSite (andGuard kindGuard wmGuard)).nonTag inp lx d with
+      | some e => exact Or.inl ⟨⟨rfl, hI⟩, rfl⟩
+      | none =>
+        simp only [withArgs, andGuard] at hK
+        have hv : NTLexValid inp lx := by
+          cases ha : (argGuard argSite).nonTag inp lx with
+          | some e => rw [ha] at hK; cases hK
+          | none =>
+            simp only [argGuard] at ha
+            split at ha
+            · assumption
+            · cases ha
+        have ha : (argGuard argSite).nonTag inp lx = none := by
+          cases ha : (argGuard argSite).nonTag inp lx with
+          | some e => rw [ha] at hK; cases hK
+          | none => rfl
+        rw [ha] at hK
+        simp only [kindGuard, wmGuard] at hK
+        have hw : d.rcs ≤ lx.raw.start := by
+          split at hK
+          · assumption
+          · cases hK
+        refine rel_of_unaryY (Chunk.R.handleNonTag_step hsim inp lx d (invX_DO hI.1)) (U_nonTag_Y cfg inp lx d hI hv hw)
+          (fun e he ho => ?_)
+        exact own_not_U2 ho ((handleNonTag_post hcl lx d hw hv.1.1 hv.1.2).2 e he) (handleNonTag_not hcl lx d hv.1 hv.2 e he)
+    · rintro n ns d _ ⟨rfl, hI⟩
+      simp only [guardHints, guardS]
+      cases hb : (d.gotFlagsFromHint || d.pendingAux) with
+      | true => simp only [if_true]; exact Or.inl ⟨⟨rfl, hI⟩, trivial⟩
+      | false =>
+        simp only [Bool.false_eq_true, if_false]
+        obtain ⟨a, b, c⟩ := invX_idle_of hI.1 hb
+        refine rel_of_unaryY (Chunk.R.startTagHint_step hsim n ns d (invX_DO hI.1)) (U_startHint_Y cfg d a b c n ns) (fun e he ho => ?_)
+        exact own_not_U2 ho ((startTagHint_post hcl n ns d).2 e he) (startTagHint_not hcl n ns d e he)
+    · rintro n d _ ⟨rfl, hI⟩
+      simp only [guardHints, guardS]
+      cases hb : (d.gotFlagsFromHint || d.pendingAux) with
+      | true => simp only [if_true]; exact Or.inl ⟨⟨rfl, hI⟩, trivial⟩
+      | false =>
+        simp only [Bool.false_eq_true, if_false]
+        obtain ⟨a, b, c⟩ := invX_idle_of hI.1 hb
+        refine rel_of_unaryY (Chunk.R.endTagHint_step hsim n d (invX_DO hI.1)) (U_endHint_Y cfg d a b c n) (fun e he ho => ?_)
+        exact own_not_U2 ho ((endTagHint_post hcl n d).2 e he) (endTagHint_not hcl n d e he)
+  · exact hsim.bailOut
+  · intro d d' inp k hf hI
+    obtain ⟨s1, s2, s3⟩ := flushRemaining_same hf
+    have hc := Chunk.R.flushRemaining_ctl hf
+    refine ⟨invX_flush hI.1 hc s1 s2 s3, ?_⟩
+    intro hg hk hact
+    rw [s3]
+    exact hI.2 (by rw [← s2]; exact hg) (by rw [← hc]; exact hk) (by rw [← hc]; exact hact)
+  · intro d hI
+    rcases hsim.handleEnd d.ctl (invX_DO hI.1) with ⟨he, _⟩ | ⟨e, ⟨hG, _⟩, he⟩
+    · exact Or.inl he
+    · have : e = .handler := Full_handleEnd_clean cfg d.ctl.1 (invX_fault hI.1) e he
+      subst this
+      rcases hG with ⟨m, hm, _⟩ | ⟨s, hs⟩
+      · cases hm
+      · cases hs
+
 end LolHtml.Thm.Full
